@@ -31,7 +31,20 @@ class H(c06.H):
     def run(self):
         out = super().run()
         eng, sps = self.eng, self.sps
-        fulls = [i for i, sp in enumerate(sps) if sp.kind == "full_case"]
+        allfulls = [i for i, sp in enumerate(sps) if sp.kind == "full_case"]
+        # every full citation either opens a new case or cites an earlier case in full again
+        self.case_of = {}
+        for i in allfulls:
+            firsts = [j for j in allfulls if j < i and self.case_of[j] == j]
+            k = eng.choose([z3.Int(f"repeat_of{i}") == x for x in range(len(firsts) + 1)])
+            if k == 0:
+                self.case_of[i] = i
+            else:
+                j = firsts[k - 1]
+                self.case_of[i] = j
+                A, B = sps[j], sps[i]
+                eng.add(A.vol == B.vol, A.rep == B.rep, A.page == B.page, A.pl == B.pl, A.df == B.df)
+        fulls = [i for i in allfulls if self.case_of[i] == i]
         # distinct cases, non-overlapping names
         for a in fulls:
             for b in fulls:
@@ -73,8 +86,9 @@ class H(c06.H):
         for gi, (key, vals) in enumerate(items):
             for v in vals:
                 where[pos[id(v)]] = gi
-        fulls = [i for i, sp in enumerate(sps) if sp.kind == "full_case"]
-        one_per_case = len(items) == len(fulls) and len({where.get(i) for i in fulls}) == len(fulls)
+        allfulls = [i for i, sp in enumerate(sps) if sp.kind == "full_case"]
+        fulls = [i for i in allfulls if self.case_of[i] == i]
+        one_per_case = len(items) == len(fulls) and len({where.get(i) for i in fulls}) == len(fulls) and None not in {where.get(i) for i in allfulls} and all(where.get(i) == where.get(self.case_of[i]) for i in allfulls)
         conds = []
         for i, sp in enumerate(sps):
             if sp.kind == "short":
@@ -111,6 +125,7 @@ class H(c06.H):
     def witness(self, m):
         w = super().witness(m)
         w["intended"] = dict(self.intended)
+        w["case_of"] = dict(self.case_of)
         return w
 
 
@@ -130,9 +145,11 @@ def concrete_oracle(cs, w):
     groups = [[pos[id(v)] for v in vals] for vals in res.values()]
     where = {i: gi for gi, g in enumerate(groups) for i in g}
     kinds = [d["kind"] for d in w["citations"]]
-    fulls = [i for i, k in enumerate(kinds) if k == "full_case"]
+    allfulls = [i for i, k in enumerate(kinds) if k == "full_case"]
+    case_of = {int(k): v for k, v in w.get("case_of", {i: i for i in allfulls}).items()}
+    fulls = [i for i in allfulls if case_of[i] == i]
     bad = []
-    if len(groups) != len(fulls) or len({where.get(i) for i in fulls}) != len(fulls):
+    if len(groups) != len(fulls) or len({where.get(i) for i in fulls}) != len(fulls) or any(where.get(i) is None or where.get(i) != where.get(case_of[i]) for i in allfulls):
         bad.append("C05:one_resource_per_distinct_case")
     intended = {int(k): v for k, v in w["intended"].items()}
     for i, d in enumerate(w["citations"]):
@@ -165,8 +182,8 @@ def concrete_oracle(cs, w):
 
 def check(rep):
     quick = rep.tier == "quick"
-    L = 3 if quick else 4
-    rep.bounds.append(f"scenario lists of {L} citations over {KINDS}: distinct cases with non-overlapping party names; short/supra references written to an intended earlier case; id. with no / numeric / non-numeric pin cite; pages and pin cites unbounded integers")
+    L = 4 if quick else 5
+    rep.bounds.append(f"scenario lists of {L} citations over {KINDS}: cases with pairwise non-overlapping party names, each cited in full once or repeatedly; short/supra references written to an intended earlier case; id. with no / numeric / non-numeric pin cite; pages and pin cites unbounded integers")
     rep.outside += ["that get_citations produces these citation objects from running text (extraction half of C05; see C01/C02/C17)", f"more than {L} citations; party names with punctuation (strip_punct identity)"]
     rep.stubs += ["hash_sha256 injective", "strip_punct identity", "re.match on the pin cite by contract"]
     agg = common.explore_split("vf.harness.c05", {"L": L}, depth=3 if quick else 4, timeout=6 * 3600)
